@@ -322,6 +322,11 @@ CHECKS = {
     technique='runtime monitoring with fault injection: the verif hook fails the k-th heap growth attempt (transiently, or persistently in 1 case of 8) while the residual free space before the query moves the failure over the allocation sites; process outcome, caught error and a probe battery are observed',
     text='13 workloads (long list, structure-building recursion, copy_term, findall of 6*10^4 solutions, assertz of a big term, atom/string conversion and append, number_codes of a 10^5-digit number, bignum multiplication, reading a big term from chars, sort, bagof, format_//2, error construction with a big culprit) are run as the first query of a fresh machine with r free cells left (r swept over 10-30 values) and the k-th growth attempt failed (k = 1..8); the goal must end in a caught error(resource_error(memory), _) (a transient failure may also be survived by a retry; a failure that hits the harness code around the goal must surface as the same error), the process must not panic or die, and 8 probe goals run afterwards with the hook disarmed must give their reference answers; every 9th case injects into the 2nd-4th query of a machine.',
     note='Known findings: K7 (failure while run_query sets the query up: panic or garbage ball), K7b (later queries: garbage ball), K53 (persistent exhaustion: documented double-fault panic). Only heap growth is failed; Vec/arena allocation failure aborts by Rust semantics and is outside the property.'),
+ 'C31': dict(
+    level='exploration',
+    technique='runtime monitoring with fault injection: the verif hook raises the interrupt flag at the n-th dispatched instruction; a three-goal sequence plus a probe battery is observed together with the hook counters (raised-at, delivered-at, number of deliveries)',
+    text='For 12 workloads (naive reverse, findall, assert/retract loop, setup_call_cleanup with a pending cleanup, catch/throw loop, dif/freeze wake-up chains in the attributed-variable dispatch loop, call_with_inference_limit, bagof/setof, string building, deep recursion, an exception in flight, read+call) the instruction count N is measured and the interrupt is raised at n in 1..300 (step 7), 400 random points in [1, N], the last 300 instructions (step 11) and three points beyond N; the workload and two probe goals then run under catch/3: at most one goal may observe error($interrupt_thrown, _), every other goal must give its reference answer, the hook must count at most one delivery, matching the observed balls, within 512 instructions of raising, a pending cleanup must have run exactly once, the process must not panic, and six battery goals must give their reference answers afterwards.',
+    note='Known findings: K54 (an interrupt taken by the machine at certain points is lost: no goal sees the ball) and K55 (an interrupt at certain points makes the dispatch loop panic with an out-of-range program counter). One machine per worker process (the flag is process-global).'),
 }
 
 NOT_APPLICABLE_REASON_UNBUILT = ('check designed in DESIGN.md but not built/validated yet in this session; '
